@@ -919,8 +919,8 @@ func (w *World) doUsePar(p int, op Op) Obs {
 		o.Status = rec.Code
 		return o
 	}
-	o.Note = fmt.Sprintf("%s|%s|%s|%s|%s", ar.GetRedirectURI().String(), strings.Join(sortedCopy(ar.GetResponseTypes()), " "),
-		strings.Join(sortedCopy(ar.GetRequestedScopes()), " "), ar.GetState(), strings.Join(sortedCopy(ar.GetRequestedAudience()), " "))
+	o.Note = fmt.Sprintf("%s|%s|%s|%s|%s|%s", ar.GetRedirectURI().String(), strings.Join(sortedCopy(ar.GetResponseTypes()), " "),
+		strings.Join(sortedCopy(ar.GetRequestedScopes()), " "), ar.GetState(), strings.Join(sortedCopy(ar.GetRequestedAudience()), " "), string(ar.GetResponseMode()))
 	for _, s := range ar.GetRequestedScopes() {
 		ar.GrantScope(s)
 	}
